@@ -47,7 +47,14 @@ pub fn run_job(rec: &mut Recorder, bin: &Path, dir: &Path, job: &Job, n: usize, 
     }
     rec.count(&format!("runs:{}:{}", cmd, if first.ok() { "ok" } else { "error" }));
     for k in 1..n {
-        let Ok(other) = cli::run_okane(bin, &argv, dir) else { continue };
+        // the repetitions also differ in everything a process inherits besides its input: time zone,
+        // locale and home directory (the clock itself cannot be moved here)
+        let env: &[(&str, &str)] = match k % 3 {
+            0 => &[],
+            1 => &[("TZ", "Pacific/Kiritimati"), ("LANG", "ja_JP.UTF-8"), ("LC_ALL", "ja_JP.UTF-8"), ("HOME", "/nonexistent")],
+            _ => &[("TZ", "America/Los_Angeles"), ("LANG", "C"), ("LC_ALL", "C"), ("COLUMNS", "20"), ("NO_COLOR", "1")],
+        };
+        let Ok(other) = cli::run_okane_env(bin, &argv, dir, env) else { continue };
         if let Some(what) = same(&first, &other) {
             let flags: String = job.argv.iter().filter(|a| a.starts_with('-') && a.len() > 1 && !a.chars().nth(1).unwrap().is_ascii_digit()).cloned().collect::<Vec<_>>().join("");
             rec.violation(
@@ -299,7 +306,7 @@ impl Check for C13 {
     }
     fn rule(&self) -> String {
         "Every case builds one input and 2-4 commands over it; each command is run in 6 (quick) / 20 (thorough) fresh processes of the real okane binary with a \
-         scrubbed environment and explicit --now; exit status, stdout and stderr of all runs must be byte-identical. Input families (round-robin): generated accepted \
+         scrubbed environment and explicit --now (the repetitions rotate through three settings of TZ / LANG / LC_ALL / HOME / COLUMNS); exit status, stdout and stderr of all runs must be byte-identical. Input families (round-robin): generated accepted \
          ledgers (balance, register, accounts, format); accounts holding 3-6 commodities and multi-commodity inferred postings (balance, register, register of one \
          account); failing assertions / zero assertions / zero assignments on multi-commodity accounts and residuals in four commodities (error text); price graphs \
          with 2-4 equal-distance chains of different rate and holdings with several unconvertible commodities (balance -X, --historical, primitive eval -X); random \
